@@ -141,6 +141,14 @@ def step (st : St) (line : String) : IO St := do
     if small "fmg_two_level_diff" 1e-9 == some false then
       IO.println s!"ORACLE C09 two-level FMG start vector is not the interpolated coarse solution ({line.trimAscii})"
       st := { st with oracleFails := st.oracleFails + 1 }
+    match kv rest "reported_error_l2" with
+    | some a =>
+      let rl2 := hexF a; let cl2 := hexF ((kv rest "recomputed_error_l2").getD ""); let ri := hexF ((kv rest "reported_error_inf").getD ""); let ci := hexF ((kv rest "recomputed_error_inf").getD "")
+      -- sin/cos come from the level cache in the library and from libm here: identical values; the norms differ by summation order only
+      if !((rl2 - cl2).abs ≤ 1e-9 * (cl2 + 1e-300) ∧ (ri - ci).abs ≤ 1e-9 * (ci + 1e-300)) then
+        IO.println s!"ORACLE C20 the error figures reported after solve() are not those of the returned solution (reported l2 {rl2} / inf {ri}, recomputed from solution() {cl2} / {ci}) ({line.trimAscii})"
+        st := { st with oracleFails := st.oracleFails + 1 }
+    | none => pure ()
     match kv rest "operator_symmetry_defect" with
     | some d =>
       let defect := hexF d; let scale := hexF ((kv rest "scale").getD ""); let energy := hexF ((kv rest "energy").getD "")
